@@ -10,6 +10,8 @@ import (
 	"io"
 	"os"
 	"runtime"
+	"runtime/debug"
+	"runtime/pprof"
 	"sort"
 	"strings"
 	"time"
@@ -60,8 +62,15 @@ func main() {
 	replay := flag.String("replay", "", "replay file")
 	outp := flag.String("out", "", "output json")
 	list := flag.Bool("list", false, "list scenarios/variants")
+	cpuprof := flag.String("cpuprofile", "", "write a CPU profile")
 	flag.Parse()
 	runtime.GOMAXPROCS(1)
+	debug.SetGCPercent(400)
+	if *cpuprof != "" {
+		f, _ := os.Create(*cpuprof)
+		pprof.StartCPUProfile(f)
+		defer pprof.StopCPUProfile()
+	}
 	netpoll.SetLoggerOutput(io.Discard)
 	netpoll.SetRunner(func(ctx context.Context, f func()) { vsched.Go("task", f) })
 	warmup()
